@@ -81,7 +81,7 @@ class LayeredArchitecture(BaseLayeredArchitecture, LayerName, LayerDefinition):
 
         modules_list = modules if isinstance(modules, list) else [modules]
 
-        module_set = set(modules)
+        module_set = set(modules_list)
         existing_modules = set(
             [
                 value.identifier
